@@ -36,7 +36,7 @@ func (fr *Frame) safety(kind string, in ssa.Instruction, cond Term) {
 			anchor = FuncName(fr.fn) + anchor
 		}
 		vc.addObl(&Obligation{Kind: kind, Anchor: anchor, Props: fr.c.Props, Desc: fmt.Sprintf("%s at %s:%d", kind, shortFile(pos.Filename), pos.Line), File: pos.Filename, Line: pos.Line,
-			Goals: []Goal{{fr.here(), cond}}, Mark: vc.S.Mark()})
+			Goals: []Goal{{Reach: fr.here(), Cond: cond, Where: fmt.Sprintf("%s:%d", shortFile(pos.Filename), pos.Line)}}, Mark: vc.S.Mark()})
 	}
 	fr.assume(cond)
 }
@@ -83,13 +83,13 @@ func (fr *Frame) step(in ssa.Instruction) {
 		case *types.Array:
 			fr.safety("bounds", x, and(cmp("<=", "0", vc.term(iv)), cmp("<", vc.term(iv), intLit64(t.Len()))))
 			r := fr.defineVal(x, sel(vc.term(av), vc.term(iv)))
-			vc.S.Assert(vc.rangeFact(r.T, x.Type(), 0))
+			fr.assume(vc.rangeFact(r.T, x.Type(), 0))
 			fr.set(x, r)
 		default: // string index
 			s := vc.term(av)
 			fr.safety("bounds", x, and(cmp("<=", "0", vc.term(iv)), cmp("<", vc.term(iv), "(str-len "+s+")")))
 			r := fr.defineVal(x, "(str-at "+s+" "+vc.term(iv)+")")
-			vc.S.Assert(vc.rangeFact(r.T, x.Type(), 0))
+			fr.assume(vc.rangeFact(r.T, x.Type(), 0))
 			fr.set(x, r)
 		}
 	case *ssa.UnOp:
@@ -155,6 +155,7 @@ func (fr *Frame) step(in ssa.Instruction) {
 	case *ssa.Lookup:
 		fr.lookup(x)
 	case *ssa.MapUpdate:
+		fr.atMapUpdate(x)
 		fr.mapUpdate(x)
 	case *ssa.Range:
 		fr.rangeInit(x)
@@ -305,7 +306,7 @@ func (fr *Frame) unop(x *ssa.UnOp) {
 		fr.locksetCheck(x, p, "read")
 		lv := vc.loadPtr(p, fr.cur)
 		r := fr.defineVal(x, lv.T)
-		vc.S.Assert(vc.rangeFact(r.T, x.Type(), 0))
+		fr.assume(vc.rangeFact(r.T, x.Type(), 0))
 		fr.loadedRefFact(r, x.Type())
 		fr.entryClosedFact(r, x.Type(), p)
 		if strings.HasPrefix(p.Heap, "G|") && len(p.Path) == 0 && vc.P.NonNilGlobals()[p.Heap] {
@@ -898,7 +899,7 @@ func (fr *Frame) safetyAlways(kind string, in ssa.Instruction, cond Term, desc s
 		anchor = FuncName(fr.fn) + anchor
 	}
 	vc.addObl(&Obligation{Kind: kind, Anchor: anchor, Props: fr.c.Props, Desc: fmt.Sprintf("%s at %s:%d", desc, shortFile(pos.Filename), pos.Line), File: pos.Filename, Line: pos.Line,
-		Goals: []Goal{{fr.here(), cond}}, Mark: vc.S.Mark()})
+		Goals: []Goal{{Reach: fr.here(), Cond: cond, Where: fmt.Sprintf("%s:%d", shortFile(pos.Filename), pos.Line)}}, Mark: vc.S.Mark()})
 	fr.assume(cond)
 }
 
@@ -941,7 +942,7 @@ func (fr *Frame) lookup(x *ssa.Lookup) {
 		s := vc.term(mv)
 		fr.safety("bounds", x, and(cmp("<=", "0", kv), cmp("<", kv, "(str-len "+s+")")))
 		r := fr.defineVal(x, "(str-at "+s+" "+kv+")")
-		vc.S.Assert(vc.rangeFact(r.T, x.Type(), 0))
+		fr.assume(vc.rangeFact(r.T, x.Type(), 0))
 		fr.set(x, r)
 		return
 	}
@@ -951,7 +952,7 @@ func (fr *Frame) lookup(x *ssa.Lookup) {
 	inC := vc.S.Define("mapok", "Bool", and(not(eq(m, "0")), in))
 	val := ite(inC, sel(sel(fr.cur.Get(vn), m), kv), vc.zeroOf(mt.Elem()))
 	valC := vc.S.Define("mapval", vc.sortOf(mt.Elem()), val)
-	vc.S.Assert(vc.rangeFact(valC, mt.Elem(), 0))
+	fr.assume(vc.rangeFact(valC, mt.Elem(), 0))
 	rv := &Val{T: valC, Typ: mt.Elem()}
 	fr.loadedRefFact(rv, mt.Elem())
 	if x.CommaOk {
@@ -1046,7 +1047,7 @@ func (fr *Frame) rangeNext(x *ssa.Next) {
 	val := sel(sel(fr.cur.Get(vn), m), k.T)
 	vt := mt.Elem()
 	vv := &Val{T: vc.S.Define(fr.prefix+".next.v", vc.sortOf(vt), val), Typ: vt}
-	vc.S.Assert(vc.rangeFact(vv.T, vt, 0))
+	fr.assume(vc.rangeFact(vv.T, vt, 0))
 	fr.loadedRefFact(vv, vt)
 	v = vv
 	// an empty map yields no iteration
